@@ -37,7 +37,8 @@ def target_reg(sel, obj):
 
 def gen_ref(rng, targets, w_eval=0.7):
   t = rng.choice(targets)
-  scopes = rng.choice([[], [], ['a'], ['a', 'b'], ['c']])
+  # reference scopes that are suffixes / prefixes / permutations of the ambient scopes used below
+  scopes = rng.choice([[], [], ['a'], ['b'], ['a', 'b'], ['c'], ['b', 'a'], ['c', 'b']])
   return {'ref': [scopes, t, rng.random() < w_eval]}
 
 
@@ -70,7 +71,7 @@ def gen_case(rng):
         if p[1] is None and p[0] not in ('self', 'cls'):
           p[1] = {'v': None}
   ops += consumers
-  scopes = [[], ['a'], ['a', 'b'], ['c']]
+  scopes = [[], ['a'], ['a', 'b'], ['c'], ['c', 'b'], ['b']]
   flat = rng.random() < 0.5
   # target bindings: plain values per scope; in non-flat cases a target may refer to an earlier target
   for i, t in enumerate(targets):
@@ -89,6 +90,8 @@ def gen_case(rng):
                     'val': gen_refval(rng, targets), '_form': rng.choice(['text', 'text', 'tuple', 'block']),
                     'block': False})
         ops[-1]['block'] = ops[-1]['_form'] == 'block'
+        if rng.random() < 0.25:
+          ops[-1]['_parse_enter'] = [{'k': 'name', 'v': rng.choice(['setup', 'a', 'c/b'])}]
   ops.append({'op': 'config'})
   for _ in range(rng.randint(2, 5)):
     c = rng.choice(consumers)
